@@ -110,7 +110,7 @@ Definition on_leader_changed (s : S) : S :=
 
 Definition send_next_idx (dst : nid) (next : option N) (reset success : bool) (s : S) : S :=
   let nx := match next with Some x => x | None => last_idx (log (nd s)) + 1 end in
-  send dst (NextIdx nx reset success) s.
+  send dst (NextIdx (term (nd s)) nx reset success) s.
 
 (* ---- membership (syncobj.py:1286-1325) ---- *)
 Definition self_is (x : nid) (n : node) : bool :=
@@ -223,6 +223,9 @@ Definition set_transmission (p : snap_part) (s : S) : S * bool :=
   end.
 
 (* __loadDumpFile; any failure is swallowed by the bare except *)
+Definition load_dump_ok (s : S) : bool :=
+  match stored (sr (nd s)) with Some (Good _) => true | _ => false end.
+
 Definition load_dump (e : env) (clear : bool) (s : S) : S :=
   match stored (sr (nd s)) with
   | Some (Good sn) =>
@@ -363,9 +366,9 @@ Definition apply_one (en : entry) (s : S) : S * bool :=
   let subs := match aget (eidx en) (wait_commit (nd s)) with Some l => l | None => [] end in
   let s := upd (fun n => n <| wait_commit := adel (eidx en) (wait_commit n) |>) s in
   match do_apply (ecmd en) s with
-  | (s, RaisedUser) => (raise EXC_USER s, false)
   | (s, WrongVer) => (s, false)
-  | (s, Applied r) =>
+  | (s, ar) =>
+    let r := match ar with Applied r => r | _ => 1 (* the exception object *) end in
     let s := fold_left (fun s tc => if fst tc =? eterm en then fire (snd tc) r SUCCESS s
                                     else fire (snd tc) 0 DISCARDED s) subs s in
     (upd (fun n => n <| applied := applied n + 1 |>) s, true)
@@ -601,10 +604,19 @@ Definition assemble_entry (ps : list (entry * N * N)) : option entry :=
   | [] => None
   end.
 
+Fixpoint matched_prefix (existing new : list entry) : nat :=
+  match existing, new with
+  | x :: xs, y :: ys => if eterm x =? eterm y then Datatypes.S (matched_prefix xs ys) else O
+  | _, _ => O
+  end.
+
 (* the common tail of the append_entries branch: commit index update *)
-Definition ae_commit (c : N) (s : S) : S :=
-  let s := if commit (nd s) <? c
-           then upd (fun n => n <| commit := N.min c (last_idx (log n)) |>) s else s in
+Definition ae_commit (c : N) (verified : option N) (s : S) : S :=
+  let s := match verified with
+           | Some v => if commit (nd s) <? c
+                       then upd (fun n => n <| commit := N.max (commit n) (N.min c v) |>) s else s
+           | None => s
+           end in
   upd set_commit_meta s.
 
 Definition ae_regular (e : env) (from : nid) (c : N) (prev : option (N * N)) (new : list entry) (s : S) : S :=
@@ -616,17 +628,21 @@ Definition ae_regular (e : env) (from : nid) (c : N) (prev : option (N * N)) (ne
   | p0 :: ptail, Some (pidx, pterm) =>
     if negb (eterm p0 =? pterm) then send_next_idx from (Some pidx) true false s
     else
-      let s := match ptail with
-               | [] => s
-               | _ =>
-                 let s := if dyn (cf e) then apply_membership true (rev ptail) s else s in
-                 upd (fun n => n <| log := delete_from (log n) (pidx + 1) |>) s
+      (* entries already held are kept; cut only from the first conflicting one *)
+      let matched := matched_prefix ptail new in
+      let existing_rest := skipn matched ptail in
+      let to_add := skipn matched new in
+      let s := match existing_rest, to_add with
+               | _ :: _, _ :: _ =>
+                 let s := if dyn (cf e) then apply_membership true (rev existing_rest) s else s in
+                 upd (fun n => n <| log := delete_from (log n) (pidx + 1 + N.of_nat matched) |>) s
+               | _, _ => s
                end in
-      let s := upd (fun n => n <| log := log n ++ new |>) s in
-      let s := if dyn (cf e) then apply_membership false new s else s in
+      let s := upd (fun n => n <| log := log n ++ to_add |>) s in
+      let s := if dyn (cf e) then apply_membership false to_add s else s in
       let nx := match last_entry new with Some le => eidx le + 1 | None => pidx + 1 end in
       let s := send_next_idx from (Some nx) false true s in
-      ae_commit c s
+      ae_commit c (Some (nx - 1)) s
   end.
 
 Definition on_append_entries (e : env) (from : nid) (m : msg) (t c : N) (s : S) : S :=
@@ -657,8 +673,10 @@ Definition on_append_entries (e : env) (from : nid) (m : msg) (t c : N) (s : S) 
         end
     | AESnap _ _ p =>
       let (s, done) := set_transmission p s in
-      let s := if done then send_next_idx from None false true (load_dump e true s) else s in
-      ae_commit c s
+      if done && load_dump_ok s then
+        let s := send_next_idx from None false true (load_dump e true s) in
+        ae_commit c (Some (last_idx (log (nd s)))) s
+      else ae_commit c None s
     | _ => s
     end.
 
@@ -708,8 +726,8 @@ Definition on_message (e : env) (from : nid) (m : msg) (n : node) : S :=
       let s := upd (fun n => n <| votes := votes n + 1 |>) s in
       if majority (votes (nd s)) (nd s) then become_leader e s else s
     else s
-  | NextIdx next reset success =>
-    if role (nd s) =? LEADER then
+  | NextIdx t next reset success =>
+    if (role (nd s) =? LEADER) && (t =? term (nd s)) then
       let s := if reset then upd (fun n => n <| next_idx := aset from next (next_idx n) |>) s else s in
       let s := if success then
                  match aget from (match_idx (nd s)) with
@@ -741,7 +759,9 @@ Definition on_disconnected (x : nid) (n : node) : node :=
     n <| readonly := sdel x (readonly n) |> <| connected := sdel x (connected n) |>
       <| tconn := sdel x (tconn n) |>
       <| next_idx := adel x (next_idx n) |> <| match_idx := adel x (match_idx n) |>
-  else n <| connected := sdel x (connected n) |> <| tconn := sdel x (tconn n) |>.
+      <| sr := (sr n) <| trans := adel x (trans (sr n)) |> |>
+  else n <| connected := sdel x (connected n) |> <| tconn := sdel x (tconn n) |>
+         <| sr := (sr n) <| trans := adel x (trans (sr n)) |> |>.
 
 (* ---- API calls ---- *)
 Definition api_submit (e : env) (c : cmd) (cbk : cbref) (n : node) : S := submit e c cbk (start_S e n).
